@@ -177,6 +177,12 @@ def _do_op(h, op):
         raw = h.raws[op['node']]
         w.log('rawtx', op['node'], str(op['dst']), str(op.get('src')), op['octets'])
         raw.send(bytes.fromhex(op['octets']), op['dst'], op.get('src'))
+    elif kind == 'iam':
+        # a real stack announces itself (again)
+        st = h.stacks.get(op['node'])
+        if st is not None and not st.node.dead:
+            w.log('iamtx', op['node'])
+            st.app.i_am()
     else:
         raise ValueError(kind)
 
